@@ -393,6 +393,24 @@ func DeclAtoms() []Atom {
 	// services
 	arg := func(i int, t string) *Field { return &Field{ID: i, Name: fmt.Sprintf("a%d", i), Req: "default", Type: T(t)} }
 	exc := func(i int, t string) *Field { return &Field{ID: i, Name: fmt.Sprintf("e%d", i), Req: "default", Type: T(t)} }
+	// throws lists whose ids are not 1..n in order: a gap left by a retired exception, ids that do not
+	// start at 1, ids written in descending order
+	{
+		bad := &Decl{Struct: &Struct{Kind: "exception", Name: "Bad", Fields: []*Field{{ID: 1, Name: "code", Req: "default", Type: T("i32")}}}}
+		for _, v := range []struct {
+			n  string
+			th []*Field
+		}{
+			{"gap", []*Field{exc(1, "Oops"), {ID: 3, Name: "e3", Req: "default", Type: T("Bad")}}},
+			{"high", []*Field{{ID: 5, Name: "e5", Req: "default", Type: T("Oops")}}},
+			{"descending", []*Field{{ID: 2, Name: "e2", Req: "default", Type: T("Bad")}, exc(1, "Oops")}},
+		} {
+			for ri, r := range []*Type{nil, T("i32")} {
+				add(fmt.Sprintf("service/throws-ids/%s/ret%d", v.n, ri), "service", false, []*Decl{localStruct(), localEnum(), localException(), bad},
+					&Decl{Service: &Service{Name: "Svc", Methods: []*Method{{Name: "doIt", Ret: r, Args: []*Field{arg(1, "i32")}, Throws: v.th}, {Name: "other"}}}})
+			}
+		}
+	}
 	rets := []*Type{nil, T("i32"), T("string"), T("Point"), List(T("i32")), T("Color"), Map(T("string"), T("Point"))}
 	for ri, r := range rets {
 		for _, nargs := range []int{0, 1, 3} {
